@@ -136,7 +136,7 @@ def import_text(rng, k, ab, lv, segs, item="zz", alias=None, style=None):
             pre = ("super" + sep) * lv
     body = pre + sep.join(segs)
     if not segs:
-        body = body[:-len(sep)] if body.endswith(sep) else body      # `import super`, `from .. import x`
+        body = pre[:-len(sep)] if pre.endswith("super" + sep) or pre.endswith("crate" + sep) else pre    # `import super`, `from .. import x`
     if k == "M":
         return "import " + body + (" as " + alias if alias else "")
     return "from " + body + " import " + item
@@ -314,6 +314,7 @@ def part_A(chk, binary, scratch, res_broken):
     for k in range(n_trees):
         t, dirs = gen_tree_A(rng, scratch, k)
         trees.append(t)
+        module_files = sorted(t.files)
         for j in range(per_tree):
             rec = gen_import(rng)
             edir = rng.choice(dirs)
@@ -323,6 +324,12 @@ def part_A(chk, binary, scratch, res_broken):
                 below = [d for d in dirs if d != edir and (edir == "" or d.startswith(edir + "/"))]
                 if below:
                     nested = rng.choice(below)
+            if module_files and rng.random() < 0.4:
+                # aimed at an existing file, from the importing file's or from the entry's directory
+                rs = rel_segs(rng.choice([edir, nested if nested is not None else edir]), rng.choice(module_files))
+                if rs:
+                    kd = rng.choice("FFM")
+                    rec = (kd, False, rs[0], rs[1] + (["zz"] if kd == "M" and rng.random() < 0.7 else []))
             stem = "zq%d" % j
             text = import_text(rng, *rec)
             if nested is None:
@@ -504,8 +511,10 @@ def gen_tree_B(rng, scratch, k, plain=False):
                 e = "incan" if rng.random() < 0.12 and not plain else "incn"
                 files.append(os.path.join(d, stem + "." + e))
     edir = rng.choice(dirs)
-    entry = os.path.join(edir, "main.incn")
+    entry = os.path.join(edir, "main.incan" if (not plain and rng.random() < 0.1) else "main.incn")
+    files = [f for f in files if not f.startswith(os.path.join(edir, "main."))]
     files.append(entry)
+    t.entry = entry
     if not plain and rng.random() < 0.1:
         t.cargo.add(rng.choice(dirs))
     for rp in files:
@@ -534,6 +543,51 @@ def gen_tree_B(rng, scratch, k, plain=False):
     return t, edir
 
 
+SCALE = [0, 1, 2, 16, 17, 63, 64, 65, 255, 256, 1000]
+PUBZZ = "pub def zz() -> int:\n    return 1\n"
+MAIN0 = "def main() -> None:\n    pass\n"
+
+
+def special_projects(chk, scratch):
+    """deterministic projects that push counts and depths past plausible bounds, plus a missing entry"""
+    out = []
+
+    def mk(name, files, edir="", missing_entry=False):
+        t = Tree(scratch, name)
+        for rp, recs in files.items():
+            t.imports[rp] = recs
+            if not (missing_entry and rp == os.path.join(edir, "main.incn")):
+                t.add(rp, MAIN0 if os.path.basename(rp) == "main.incn" else PUBZZ, [import_text(None, *r, style=0) for r in recs])
+        t.entry = os.path.join(edir, "main.incn")
+        if missing_entry:
+            t.imports.pop(t.entry, None)
+        # 1000-module projects: in the quick tier only the real code runs on them (oracle: terminates, CLI = LSP set)
+        no_model = chk.tier == "quick" and len(files) > 300
+        out.append({"tree": t, "edir": edir, "ab": True, "cwd_rel": None, "plain": not no_model and False, "special": name, "no_model": no_model})
+
+    sizes = SCALE if chk.tier == "thorough" else [n for n in SCALE if n != 255]
+    for n in sizes:
+        # a chain main -> m0 -> m1 -> ... -> m(n-1); odd lengths close a cycle back to m0
+        files = {"main.incn": [("F", False, 0, ["m0"])] if n else []}
+        for i in range(n):
+            nxt = "m%d" % (i + 1) if i + 1 < n else ("m0" if n % 2 else None)
+            files["m%d.incn" % i] = [("F", False, 0, [nxt])] if nxt else []
+        mk("xc%d" % n, files)
+        # the entry imports n modules, each of which imports its predecessor (diamonds)
+        files = {"main.incn": [("F", False, 0, ["f%d" % i]) for i in range(n)]}
+        for i in range(n):
+            files["f%d.incn" % i] = [("F", False, 0, ["f%d" % (i - 1)])] if i else []
+        if n <= 256:
+            mk("xf%d" % n, files)
+    for depth in (16, 17, 64):
+        # a module `depth` directories down; it climbs back with `depth` x super
+        chain = ["d"] * depth
+        leaf = "/".join(chain) + "/leaf.incn"
+        mk("xd%d" % depth, {"main.incn": [("F", False, 0, chain + ["leaf"])], leaf: [("F", False, depth, ["top"])], "top.incn": []})
+    mk("xmissing", {"main.incn": [("F", False, 0, ["a"])], "a.incn": []}, missing_entry=True)
+    return out
+
+
 def part_B(chk, binary, scratch, res_broken):
     rng = chk.rng
     n = 110 if chk.tier == "quick" else 400
@@ -548,10 +602,13 @@ def part_B(chk, binary, scratch, res_broken):
         else:
             ab, cwd_rel = False, "/".join(comps[:rng.randrange(len(comps) + 1)])
         projs.append({"tree": t, "edir": edir, "ab": ab, "cwd_rel": cwd_rel, "plain": plain})
+    for p in special_projects(chk, scratch):
+        p["tree"].write()
+        projs.append(p)
     lines = []
     for p in projs:
         t = p["tree"]
-        entry_abs = os.path.join(t.root, p["edir"], "main.incn")
+        entry_abs = os.path.join(t.root, t.entry)
         if p["ab"]:
             cwd, entry = "", entry_abs
         else:
@@ -569,10 +626,16 @@ def part_B(chk, binary, scratch, res_broken):
         else:
             cwdl = t.absdir(p["cwd_rel"])
             b = [code(x) for x in os.path.dirname(p["entry"]).split("/") if x]
-        terms.append("(run_collect (%s) (%s) %s %s %s %d Incn)" % (t.fs_term(), tbl_term(t), zl(cwdl), cb(p["ab"]), zl(b), code("main")))
+        if p.get("no_model"):
+            terms.append("(run_collect [] [] [] true [] 5 Incn)")
+            continue
+        terms.append("(run_collect (%s) (%s) %s %s %s %d %s)" % (t.fs_term(), tbl_term(t), zl(cwdl), cb(p["ab"]), zl(b), code("main"),
+                                                                 "Incan" if t.entry.endswith(".incan") else "Incn"))
     req = "From Coq Require Import ZArith List Bool.\nImport ListNotations.\nFrom Verif Require Import C14.Model.\nOpen Scope Z_scope."
     ty = "(Z * list (list Z * list Z)) * (Z * list (list Z * list Z)) * (Z * list (list Z)) * (Z * list (list Z)) * bool"
-    model = vlib.coq_eval(req, ty, "fun x => x", terms, tag="c14b", shard=10)
+    t0 = time.time()
+    model = vlib.coq_eval(req, ty, "fun x => x", terms, tag="c14b", shard=6)
+    vlib.log("[c14] part_B model: %d terms in %.1fs" % (len(terms), time.time() - t0))
     fails, corr_bad = [], []
     hits = {}
     dist = {"cli_modules": {}, "cycle_reported_by_ModuleCollector": 0, "cli_lsp_sets_differ": 0}
@@ -591,7 +654,29 @@ def part_B(chk, binary, scratch, res_broken):
         if bad or any(o.startswith("SKIPPED") for o in (o_cli, o_mr, o_lsp, o_mc, o_chk)):
             continue
         (mc_code, mc_items), (mm_code, mm_items), (ml_code, ml_paths), (mk_code, mk_paths), m_flag = _unflatten_B(model[n_])
-        entry_r = t.rendered(os.path.join(p["edir"], "main.incn"))
+        entry_r = t.rendered(t.entry)
+        if p.get("no_model"):
+            # oracle only: both front ends terminate and load exactly the n modules of this flat project
+            r_cli = parse_modules(t, o_cli)
+            ml_ = re.match(r"OK deps=(.*?) self=(\d+) diags=", o_lsp)
+            n_cli = len(r_cli[1]) - 1 if r_cli[0] == 0 else -1
+            n_lsp = len([x for x in ml_.group(1).split(";") if x]) if ml_ else -2
+            chk.count_case((t.name, "collect-oracle"), nontrivial=True)
+            want = len(t.files) - 1
+            if n_cli != want or n_lsp != want:
+                fails.append(dict(desc, why="a %d-module project: CLI loaded %d, LSP %d dependency files" % (want, n_cli, n_lsp)))
+            continue
+        for nm, cd in (("cli_collect", mc_code), ("mr_collect", mm_code), ("lsp_collect", ml_code), ("mc_collect", mk_code)):
+            arm(chk, nm + "/" + {0: "Done", 1: "Failed: cannot read entry", 2: "Failed: circular import", 9: "OutOfFuel"}.get(cd, str(cd)))
+        arm(chk, "any_known/" + str(bool(m_flag)).lower())
+        if p.get("special") == "xmissing":
+            # the entry file does not exist: every collector must report it (model: Failed 1)
+            ok = (mc_code == 1 and mm_code == 1 and mk_code == 1 and o_cli.startswith("ERR Cannot access file") and
+                  o_mr.startswith("ERR Error reading") and o_mc.startswith("ERR Cannot read"))
+            chk.count_case((t.name, "collect"), nontrivial=True)
+            if not ok:
+                corr_bad.append(dict(desc, which="missing entry", impl=[o_cli[:120], o_mr[:120], o_mc[:120]], model=[mc_code, mm_code, mk_code]))
+            continue
         # cli / mr
         for tag, o, mcode, mitems in (("collect_modules", o_cli, mc_code, mc_items), ("ModuleResolver", o_mr, mm_code, mm_items)):
             r = parse_modules(t, o)
